@@ -161,6 +161,8 @@ opcodetype GetOpCode(const char* name)
     // expansion
     c(NOP1);
     c(CHECKLOCKTIMEVERIFY);
+    c(NOP2); // (historical names of the two soft-forked NOPs: aliases, like TRUE and FALSE)
+    c(NOP3);
     c(CHECKSEQUENCEVERIFY);
     c(NOP4);
     c(NOP5);
